@@ -195,6 +195,52 @@ func ruleC12(w *World, r *Report) {
 		weng := newEngine(w, r, "R12.1", map[*ssa.Function]bool{sendReq: true})
 		weng.wrapObls(sendReq)
 	}
+	// a third spelling: the shape of the count-down loop with the counter running the other way — retries done
+	// so far, starting at 0, tested against maxReqRetries inside the loop body
+	upInner := false
+	isBound := func(v ssa.Value) bool {
+		for {
+			cv, isCv := v.(*ssa.Convert)
+			if !isCv {
+				break
+			}
+			v = cv.X
+		}
+		return strings.HasSuffix(symOf(v).String(), "upf.maxReqRetries")
+	}
+	if counter == nil && up == nil {
+		allInstrs(sendReq, func(i ssa.Instruction) {
+			phi, ok := i.(*ssa.Phi)
+			if !ok || len(phi.Edges) != 2 {
+				return
+			}
+			var inc *ssa.BinOp
+			zero := false
+			for _, e := range phi.Edges {
+				if bo, ok := e.(*ssa.BinOp); ok && bo.Op == token.ADD && bo.X == ssa.Value(phi) {
+					if k, isK := constInt(bo.Y); isK && k == 1 {
+						inc = bo
+					}
+				} else if k, isK := constInt(e); isK && k == 0 {
+					zero = true
+				}
+			}
+			if inc == nil || !zero {
+				return
+			}
+			tested := false
+			for _, b := range sendReq.Blocks {
+				for _, sc := range b.Succs {
+					if x, op, y, ok := edgeFact(b, sc); ok && x == ssa.Value(phi) && op == token.LSS && isBound(y) {
+						tested = true
+					}
+				}
+			}
+			if tested {
+				counter, decr, upInner = phi, inc, true
+			}
+		})
+	}
 	exhausted := exhaustedUp
 	if counter == nil && up == nil {
 		r.bad("R12.1", sn, "retry counter", w.Pos(sendReq.Pos()), "no loop counter initialised from maxReqRetries and decremented by 1 (or counting up to it) was found: the number of transmissions is not bounded by 1+max_req_retries")
@@ -206,6 +252,9 @@ func ruleC12(w *World, r *Report) {
 			if !ok || x != ssa.Value(counter) {
 				return false
 			}
+			if upInner {
+				return op == token.LSS && isBound(y)
+			}
 			k, isK := constInt(y)
 			if !isK {
 				return false
@@ -216,6 +265,9 @@ func ruleC12(w *World, r *Report) {
 			x, op, y, ok := edgeFact(a, b)
 			if !ok || x != ssa.Value(counter) {
 				return false
+			}
+			if upInner {
+				return op == token.GEQ && isBound(y)
 			}
 			k, isK := constInt(y)
 			if !isK {
@@ -255,6 +307,11 @@ func ruleC12(w *World, r *Report) {
 			r.check(okDec && miss == nil, "R12.1", sn, fmt.Sprintf("retransmission #%d costs one retry", k+1), w.Pos(c.Pos()), "back edge carries counter-1", "a retransmission does not decrement the retry counter")
 		}
 		r.check(inLoop >= 1, "R12.1", sn, "a retransmission exists", w.Pos(sendReq.Pos()), fmt.Sprintf("%d in-loop sends", inLoop), "no retransmission: requests are sent once only")
+		if upInner {
+			// the counter cannot wrap past its bound
+			weng := newEngine(w, r, "R12.1", map[*ssa.Function]bool{sendReq: true})
+			weng.wrapObls(sendReq)
+		}
 	}
 	if counter != nil || up != nil {
 		// verdicts
